@@ -14,6 +14,9 @@ typedef unsigned char uch_t;
 typedef int *pint;
 typedef int arr3_t[3];
 typedef int (*fn_t)(int);
+typedef int vec_t[5];
+typedef vec_t mat_t[2];
+typedef int func_t(int);
 struct s1 { int a; char b; };
 struct s2 { double d; char c; };
 typedef struct s2 s2_t;
@@ -35,6 +38,9 @@ typedef unsigned char uch_t;
 typedef int *pint;
 typedef int arr3_t[3];
 typedef int (*fn_t)(int);
+typedef int vec_t[5];
+typedef vec_t mat_t[2];
+typedef int func_t(int);
 struct s1 { int a; char b; };
 struct s2 { double d; char c; };
 typedef struct s2 s2_t;
